@@ -79,8 +79,9 @@ def extra_closures(natives: List[str]) -> List[dict]:
 
 def run(chk: Check):
     rng = random.Random(chk.seed)
-    if not regen_or_report(chk):
-        return
+    # a translator that fails closed is reported (broken obligation); the implementation is still run against the
+    # spec oracle and the (last generated) model, so that a behavioural change comes with a concrete failing input
+    regen_or_report(chk)
     chk.prove(FAM, "Props.C04", THEOREMS)
     from ..translate import tables as T
     ptypes = {k: (size, T.KIND_CODE[T.FORMAT_WIDTH[fmt][1]]) for k, _, size, fmt in T.parser_supported_types()}
